@@ -153,7 +153,7 @@ class HashConstant(StringConstant):
         key = type.upper().replace('-', '')
         if key in _HASH_REGEX:
             vocab_key = _HASH_REGEX[key][1]
-            if not re.match(_HASH_REGEX[key][0], value):
+            if not re.fullmatch(_HASH_REGEX[key][0], value):
                 raise ValueError("'%s' is not a valid %s hash" % (value, vocab_key))
             super(HashConstant, self).__init__(value)
 
@@ -189,10 +189,10 @@ class HexConstant(_Constant):
     """
     def __init__(self, value, from_parse_tree=False):
         # support with or without an 'h'
-        if not from_parse_tree and re.match('^([a-fA-F0-9]{2})+$', value):
+        if not from_parse_tree and re.fullmatch('([a-fA-F0-9]{2})+', value):
             self.value = value
         else:
-            m = re.match("^h'(([a-fA-F0-9]{2})+)'$", value)
+            m = re.fullmatch("h'(([a-fA-F0-9]{2})+)'", value)
             if m:
                 self.value = m.group(1)
             else:
